@@ -73,6 +73,7 @@ pub fn bodies(tier: &str) -> Vec<crate::e3::BodySpec> {
     let b = |body: VisBody, bound: usize, secs: f64| crate::e3::BodySpec { body: Arc::new(body), bound, secs };
     vec![
         b(VisBody { name: "clear x || insert x.a, then reopen", kind: Kind::Plain, workers: 0, keyspaces: vec!["x"], initial: vec![("x", "a", "0"), ("x", "b", "0")], prerotate: vec![], threads: vec![vec![Act::Clear("x")], vec![Act::Ins(("x", "a", "1"))]], finals: Finals::ReopenSame }, 2, if q { 5.0 } else { 120.0 }),
+        b(VisBody { name: "ingest(a,b) || insert a || insert b, then reopen", kind: Kind::Plain, workers: 0, keyspaces: vec!["x"], initial: vec![("x", "ab", "0")], prerotate: vec![], threads: vec![vec![Act::Ingest("x", vec![("a", "ingested"), ("b", "ingested")])], vec![Act::Ins(("x", "a", "written"))], vec![Act::Ins(("x", "b", "written"))]], finals: Finals::ReopenSame }, 2, if q { 4.0 } else { 120.0 }),
         b(VisBody { name: "batch || clear y || insert, then reopen", kind: Kind::Plain, workers: 0, keyspaces: vec!["x", "y"], initial: vec![("x", "a", "0"), ("y", "a", "0")], prerotate: vec![], threads: vec![vec![Act::Batch(vec![("x", "a", "1"), ("y", "a", "1")])], vec![Act::Clear("y")], vec![Act::Ins(("y", "b", "2"))]], finals: Finals::ReopenSame }, if q { 1 } else { 2 }, if q { 6.0 } else { 200.0 }),
     ]
 }
